@@ -169,11 +169,12 @@ EvalQuery(q, DB) ==
   IN [rel |-> [cols |-> ocols, rows |-> lim], all |-> [cols |-> ocols, rows |-> sorted]]
 
 (* Is the prefix selected by LIMIT determined?  Yes iff there is no effective limit, or an ORDER BY separates the n-th and (n+1)-th row,
-   or those two rows are identical. *)
+   or every row that ties with the n-th row on the ORDER BY keys is identical to it (then any choice inside the tie gives the same rows). *)
 LimitDetermined(q, DB) ==
   LET r == EvalQuery(q, DB) n == q.limit IN
   n < 0 \/ n >= Len(r.all.rows) \/ n = 0 \/
-  (q.order # <<>> /\ (CmpKeys(q.order, KeyOf(q.order, r.all.rows[n]), KeyOf(q.order, r.all.rows[n + 1]), 1) # 0 \/ r.all.rows[n] = r.all.rows[n + 1]))
+  (q.order # <<>> /\ (CmpKeys(q.order, KeyOf(q.order, r.all.rows[n]), KeyOf(q.order, r.all.rows[n + 1]), 1) # 0
+                      \/ \A i \in 1..Len(r.all.rows) : CmpKeys(q.order, KeyOf(q.order, r.all.rows[i]), KeyOf(q.order, r.all.rows[n]), 1) = 0 => r.all.rows[i] = r.all.rows[n]))
 Ordered(q) == q.order # <<>>
 
 (* ---------------- rendering ---------------- *)
